@@ -170,6 +170,10 @@ class ExprTheory:
         for (arr, body) in list(self.sums.values()):
             # the summation points include the current values of the range variables
             out.append(z3.Implies(self.OKSUM(arr, body), ok(body)))
+            # a sum over no variable has the single term `body`; a sum of zeros is zero (the Zero object is defined everywhere)
+            empty = arr == z3.K(self.L.Node, z3.BoolVal(False))
+            out.append(z3.Implies(empty, z3.And(self.SUMV(arr, body) == den(body), self.OKSUM(arr, body) == ok(body))))
+            out.append(z3.Implies(cls(body) == CL["Zero"], z3.And(self.SUMV(arr, body) == 0, self.OKSUM(arr, body))))
             for (x, r) in self.eqv:
                 if body.eq(r):
                     out.append(z3.Implies(self.OKSUM(arr, x), z3.And(self.OKSUM(arr, r), self.SUMV(arr, r) == self.SUMV(arr, x))))
